@@ -274,7 +274,17 @@ func c13CheckMarker(r *prog.Runner, prefix, delim string, full []c13Entry, idx i
 		ds = append(ds, disc{Kind: kind, Detail: fmt.Sprintf("prefix=%q delim=%q key-marker=%q version-id-marker=%q: ", prefix, delim, m.Key, m.ID) + fmt.Sprintf(f, a...)})
 	}
 	if m.ID == "null" {
-		return nil // 'null' does not name one specific entry
+		// 'null' is what the listing displays for an unversioned entry; the pair names an
+		// existing version only if it is the key's only entry displayed that way
+		n := 0
+		for _, e := range full {
+			if e.Key == m.Key && e.ID == "null" {
+				n++
+			}
+		}
+		if n != 1 {
+			return nil
+		}
 	}
 	doc, resp := c13List(r.St, prefix, delim, 0, m.Key, m.ID, true)
 	if doc == nil {
